@@ -50,6 +50,14 @@ def gen_cases(rng, tier):
             cfg = L.rand_config(rng, tier, want=rng.choice(['vec', 'timevec']))
         if defect == 'missing_key' and not (cfg['time_order'] and not cfg['vector_order']):
             cfg = L.rand_config(rng, tier, want='time')
+        if defect in ('vec_straddle', 'vec_move'):
+            cfg = L.rand_config(rng, tier, want='timevec')
+            cfg['S'] = max(cfg['S'], 2)
+            cfg['V'] = max(cfg['V'], 2)
+            if rng.random() < 0.6:
+                cfg['T'] = max(cfg['T'], 2)
+            if cfg['time_order'].get('abs') is not None:
+                cfg['time_order'] = {'key': cfg['time_order']['key'], 'abs': None}
         if defect == 'bad_ordinate':
             cfg = L.rand_config(rng, tier, want=rng.choice(['time', 'timevec']), force_abs=True)
         if defect == 'tie_straddle' and (cfg['mode'] != 'guess' or cfg['S'] < 2 or cfg['T'] < 2):
